@@ -3,6 +3,7 @@ EXTENDS Reconnect, Json
 RECURSIVE SeqsUpTo(_)
 SeqsUpTo(n) == IF n = 0 THEN {<<>>} ELSE LET prev == SeqsUpTo(n - 1) IN prev \cup { Append(s, x) : s \in { t \in prev : Len(t) = n - 1 }, x \in {"F", "S", "D"} }
 ScriptsDef == SeqsUpTo(5)
+ScriptsBig == SeqsUpTo(7)
 \* export: when all calls are done, print the script with the predicted results
 Done == (Len(calls) = MaxCalls /\ pc \in {"idle", "closed"}) \/ pc = "connect_failed"
 Export == Done => PrintT(<<"SCRIPT", ToJson([script |-> script, lazy |-> Lazy, connect |-> IF pc = "connect_failed" THEN "err" ELSE "ok",
